@@ -479,6 +479,50 @@ void wbxml_tree_clb_xml_end_cdata(void *ctx)
 }
 
 
+#if defined ( WBXML_SUPPORT_SYNCML )
+/**
+ * @brief Does the text a new piece of character data will be joined with end with a Carriage Return ?
+ * @param node The current node of the callbacks
+ * @return TRUE if there is such a text and its last character is a CR, FALSE otherwise
+ * @note Expat delivers "&#13;&#10;" as two pieces, "\r" then "\n": that Line Feed has its CR already.
+ *       The text before a piece is the base64 text cached on a binary element or, wbxml_tree_add_node()
+ *       joining adjacent text nodes, the last child when it is a text node.
+ */
+static WB_BOOL previous_text_ends_with_cr(WBXMLTreeNode *node)
+{
+    WBXMLBuffer   *text = NULL;
+    WBXMLTreeNode *last = NULL;
+    WB_UTINY       c    = 0;
+
+    if (node == NULL)
+        return FALSE;
+
+    if (node->type == WBXML_TREE_ELEMENT_NODE &&
+        node->name->type == WBXML_VALUE_TOKEN &&
+        node->name->u.token->options & WBXML_TAG_OPTION_BINARY)
+    {
+        /* Binary tag: the piece will be appended to the cached text */
+        text = node->content;
+    }
+    else {
+        last = node->children;
+        while ((last != NULL) && (last->next != NULL))
+            last = last->next;
+
+        if ((last == NULL) || (last->type != WBXML_TREE_TEXT_NODE))
+            return FALSE;
+
+        text = last->content;
+    }
+
+    if ((text == NULL) || (wbxml_buffer_len(text) == 0))
+        return FALSE;
+
+    return (WB_BOOL) (wbxml_buffer_get_char(text, wbxml_buffer_len(text) - 1, &c) && (c == '\r'));
+}
+#endif /* WBXML_SUPPORT_SYNCML */
+
+
 void wbxml_tree_clb_xml_characters(void           *ctx,
                                    const XML_Char *ch,
                                    int             len)
@@ -516,9 +560,13 @@ void wbxml_tree_clb_xml_characters(void           *ctx,
          *
          * The line breaks are always in a single text node.
          * So a CR is appended to get a CRLF at the end.
+         *
+         * A CR written in the document ("&#13;&#10;") comes as a piece of
+         * its own just before: then the CRLF is there already.
          */
 
-        if (len == 1 && ch[0] == '\n') /* line break - LF */
+        if (len == 1 && ch[0] == '\n' && /* line break - LF */
+            !previous_text_ends_with_cr(tree_ctx->current))
         {
             ch = "\r\n";
             len = 2;
